@@ -67,6 +67,14 @@ def _cases(tier, seed):
             for dt in ('float64', 'complex128') if len(N) <= 2 else ('float64',):
                 cs.append({'scen': 'tt_diag', 's': {'dir': dr, 'N': N, 'R': R, 'dtype': dt}})
     cs.append({'scen': 'tt_diag', 's': {'dir': 'embed', 'N': [2, 3], 'R': [1, 2, 1], 'dtype': 'float32'}})
+    # diagonal of operators with rectangular modes (tall, wide, mixed; also the shape of x.to_ttm())
+    for M, N, R in [([3], [2], [1, 1]), ([2], [3], [1, 1]), ([3, 2], [2, 2], [1, 2, 1]), ([2, 3, 2], [3, 1, 2], [1, 2, 2, 1]), ([3, 2], [1, 1], [1, 2, 1])]:
+        cs.append({'scen': 'tt_diag', 's': {'dir': 'extract', 'M': M, 'N': N, 'R': R, 'dtype': 'float64'}})
+    cs.append({'scen': 'tt_diag', 's': {'dir': 'extract', 'M': [3, 1], 'N': [2, 2], 'R': [1, 2, 1], 'dtype': 'complex128'}})
+    # paddings passed as a list (checked unchanged afterwards), widths not a palindrome
+    for N, R, pad in [([2, 3], [1, 2, 1], [[1, 0], [0, 2]]), ([2, 1, 2], [1, 2, 2, 1], [[2, 0], [0, 1], [1, 1]]), ([3], [1, 1], [[0, 2]])]:
+        cs.append({'scen': 'tt_pad', 's': {'N': N, 'R': R, 'pad': pad, 'value': 0.0, 'dtype': 'float64', 'pad_as_list': True}})
+    cs.append({'scen': 'ttm_pad', 's': {'M': [2, 1], 'N': [1, 2], 'R': [1, 2, 1], 'pad': [[1, 0], [0, 2]], 'value': 'sym', 'dtype': 'float64', 'pad_as_list': True}})
     # ---- mprod
     for N, R in [([3], [1, 1]), ([2, 3], [1, 2, 1]), ([2, 3, 2], [1, 2, 3, 1]), ([1, 2, 3], [1, 1, 2, 1])] + ([([2, 2, 3, 2], [1, 2, 2, 2, 1])] if th else []):
         d = len(N)
